@@ -20,9 +20,14 @@ Lemma gen_retire : forall st, retire_on_terminal st =
 Proof. intros []; reflexivity. Qed.
 Lemma gen_purge : purge_on_finish = true. Proof. reflexivity. Qed.
 Lemma gen_scatter : scatter_skips_stopped = true. Proof. reflexivity. Qed.
+(* the three verdict tables are generated as truth tables over (no error | some error, timed_out, hardness):
+   the translator runs the if/else/return skeleton of each on_finish instead of matching its text *)
 Lemma gen_worker_fails : forall e b, worker_fails e b = (Nat.ltb 0 e || b).
-Proof. reflexivity. Qed.
-Lemma gen_load_ok : forall e b, load_ok e b = (Nat.eqb e 0 && negb b). Proof. reflexivity. Qed.
+Proof. intros [|e] []; reflexivity. Qed.
+Lemma gen_load_ok : forall e b, load_ok e b = (Nat.eqb e 0 && negb b).
+Proof. intros [|e] []; reflexivity. Qed.
+Lemma gen_stop_fails : forall t h e, stop_fails t h e = ((t && h) || Nat.ltb 0 e).
+Proof. intros [] [] [|e]; reflexivity. Qed.
 Lemma gen_stop : stop_ok_after_failure = false. Proof. reflexivity. Qed.
 Lemma gen_tmo : tmo_worker = TDefault /\ tmo_query = TDefault /\ tmo_hardstop = TDefault /\
                 tmo_softstop = TNone /\ tmo_load = TDefault.
@@ -1354,7 +1359,7 @@ Proof.
       + apply Nat.leb_le in Ele. repeat split; lia.
       + destruct (t_deadline t); [destruct (expired n (now h1)); discriminate|discriminate].
     - (* stop tasks: a hard stop has a deadline, a soft stop has none *)
-      rewrite gen_stop, gen_flag in Hok. unfold stop_fails in Hok.
+      rewrite gen_stop, gen_flag, gen_stop_fails in Hok.
       destruct (Nat.ltb 0 (t_err t)) eqn:El; [rewrite orb_true_r in Hok; destruct Hok as [Hx|[]]; discriminate|].
       apply Nat.ltb_ge in El. rewrite orb_false_r in Hok.
       destruct (Nat.leb (t_exp t) (t_ok t + t_err t)) eqn:Ele.
